@@ -113,7 +113,15 @@ func genQuoteTab() {
 		ns[i] = strconv.Itoa(c)
 	}
 	fmt.Fprintf(&l.b, "def shellChars : List Nat := [%s]\n\n", strings.Join(ns, ", "))
-	l.strList("keywords", keywords)
+	kb := make([]string, len(keywords))
+	for i, k := range keywords {
+		bs := make([]string, len(k))
+		for j := 0; j < len(k); j++ {
+			bs[j] = strconv.Itoa(int(k[j]))
+		}
+		kb[i] = "[" + strings.Join(bs, ", ") + "]"
+	}
+	fmt.Fprintf(&l.b, "/-- IsKeyword's words as byte lists -/\ndef keywords : List (List Nat) := [%s]\n\n", strings.Join(kb, ", "))
 
 	// ---- call sites in the tree under test
 	var quoteCalls [][2]string
